@@ -68,6 +68,50 @@ func applyGuarded(patchText, name string, src []byte, timeout time.Duration) app
 	}
 }
 
+// applySeq parses the patch once, applies it to every source of before (results dropped), then to src
+// 1+repeat times; the applications of src must all return the same bytes and error.
+func applySeq(patchText, name string, before []string, src []byte, repeat int, timeout time.Duration) applyResult {
+	ch := make(chan applyResult, 1)
+	go func() {
+		defer func() {
+			if r := recover(); r != nil {
+				ch <- applyResult{err: fmt.Sprintf("panic:%v", r)}
+			}
+		}()
+		pf, err := patch.Parse("v.patch", []byte(patchText))
+		if err != nil {
+			ch <- applyResult{err: "parse:" + err.Error()}
+			return
+		}
+		for i, b := range before {
+			pf.Apply(fmt.Sprintf("before%d.go", i), []byte(b))
+		}
+		var first applyResult
+		for i := 0; i <= repeat; i++ {
+			var r applyResult
+			out, err := pf.Apply(name, src)
+			if err != nil {
+				r.err = "apply:" + err.Error()
+			} else {
+				r.out = out
+			}
+			if i == 0 {
+				first = r
+			} else if string(r.out) != string(first.out) || r.err != first.err {
+				ch <- applyResult{out: r.out, err: fmt.Sprintf("unstable: application %d of the same source differs from the first: %q / %q", i+1, r.out, r.err)}
+				return
+			}
+		}
+		ch <- first
+	}()
+	select {
+	case r := <-ch:
+		return r
+	case <-time.After(timeout):
+		return applyResult{err: "timeout"}
+	}
+}
+
 func sourceOf(v *Vector) (string, error) {
 	if v.Src != "" {
 		return v.Src, nil
